@@ -19,7 +19,7 @@ RULE = ("C01's schemas and reachable states (a valid prefix history), then faili
         "fields/include_field.py during loads/load; whenever such an operation raises, M-same compares values at all "
         "depths, user-defined flags and identities of nested configurations before/after; non-trivial = >= 2 "
         "raising listed operations judged; distinct = distinct (schema, history)")
-REQUIRED = ("incomplete_objects_rejected", "incomplete_maps_rejected", "dotted_into_dict_rejections", "corrupt_include_files", "same_checks", "raised:set", "raised:set-sub", "raised:ctor", "raised:listop", "raised:dictop",
+REQUIRED = ("list_reuse_rejections", "wrong_root_documents_rejected", "incomplete_objects_rejected", "incomplete_maps_rejected", "dotted_into_dict_rejections", "corrupt_include_files", "same_checks", "raised:set", "raised:set-sub", "raised:ctor", "raised:listop", "raised:dictop",
             "raised:loads-unparsable", "raised:loads-include", "failpoint_injections_raised")
 ASSUMPTIONS = ["only the kinds of operation listed in the property are judged (a tree that parses but fails validation "
                "half way, extend / slice / update with a bad element are outside the statement)",
@@ -90,7 +90,8 @@ def generate(rng, ctx):
         tree = gen.tree_for(rng, schema, env, valid=True, partial=0.5)
         ops.insert(rng.randrange(len(ops) + 1), {"op": "loads", "tree": tree, "fmt": rng.choice(history.FORMATS),
                                                  "corrupt": rng.choice(["truncate:%d" % rng.randrange(1, 8), "wrongroot", "badutf8",
-                                                                        "empty", "garbage"])})
+                                                                        "empty", "garbage", "seqroot", "seqroot", "multidoc",
+                                                                        "scalarroot"])})
     if rng.random() < (0.6 if thorough else 0.25):
         tree = gen.tree_for(rng, schema, env, valid=True, partial=0.5)
         ops.append({"op": "loads", "tree": tree, "fmt": rng.choice(history.FORMATS), "failpoints": rng.getrandbits(30)})
@@ -141,6 +142,12 @@ def targeted_ops(rng, schema, env):
                     ops.append({"op": "listop", "path": path, "name": rng.choice(["setitem", "setitem", "insert", "append"]),
                                 "i": rng.choice([0, 1, -1, -2]), "n": 0, "xs": [], "iter": "list", "a": None, "b": None, "x": t,
                                 "as_config": False})
+            # whole-list assignments that re-use the live item objects of this list (or of another list with the same item
+            # type) and end with a rejected element
+            for _ in range(2):
+                t = late_invalid(rng, nd["item"], env)
+                if t is not None:
+                    ops.append({"op": "list_reuse", "path": path, "bad": t, "route": rng.choice(["attr", "item"]), "src": None})
             # configuration *objects* whose values are all fine but which are incomplete (a required field left out),
             # inserted / assigned at negative and past-the-end positions of the populated list
             req = [ch for ch in model.stored_children(nd["item"]) if ch["kind"] == "field" and ch.get("params", {}).get("required")
@@ -198,6 +205,10 @@ def run(case, ctx, res):
         if out is None:
             res.count("ops_skipped")
             continue
+        if out.get("reuse") and out["raised"] is not None:
+            res.count("list_reuse_rejections")
+        if op.get("corrupt") in ("seqroot", "multidoc", "scalarroot") and out["raised"] is not None:
+            res.count("wrong_root_documents_rejected")
         if op.get("incomplete_object") and out["raised"] is not None:
             res.count("incomplete_objects_rejected")
         if op.get("incomplete_map") and out["raised"] is not None:
